@@ -34,6 +34,9 @@ Qed.
 Lemma delete_item_items s t i it : s_items (delete_item s t i it) = upd (s_items s) i (it_dead it).
 Proof. apply delete_item_fields. Qed.
 
+Lemma set_pc_items s t th p : s_items (set_pc s t th p) = s_items s.
+Proof. reflexivity. Qed.
+
 Ltac mtx_leaf :=
   match goal with
   | |- mtx_rel _ _ _ => first
@@ -88,13 +91,13 @@ Proof.
   - (* PRelErase *) unfold with_item in E. destruct (nth_error (s_items s) i) as [it|] eqn:Hn; [destruct (i_live it)|]; injection E as <-; mtx_leaf.
   - (* PRelDelete *) unfold with_item in E. destruct (nth_error (s_items s) i) as [it|] eqn:Hn; [destruct (i_live it)|]; try (injection E as <-; mtx_leaf).
     destruct destroy; injection E as <-.
-    + eapply mtx_rel_upd; [eassumption | simpl; apply delete_item_items | auto].
-    + eapply mtx_rel_upd; [eassumption | simpl; rewrite delete_item_items; destruct (i_obj it); reflexivity | auto].
+    + eapply mtx_rel_upd; [eassumption | cbn [r_st]; rewrite set_pc_items; apply delete_item_items | auto].
+    + eapply mtx_rel_upd; [eassumption | cbn [r_st]; rewrite set_pc_items, delete_item_items; destruct (i_obj it); reflexivity | auto].
   - (* PRelNotify *) destruct (s_blockq s); injection E as <-; mtx_leaf.
   - (* PExp *) destruct (exp_split (s_items s) (s_now s) (s_numlimit s) (s_list s) (s_set s)) as [[zs l'] set'].
     injection E as <-. mtx_leaf.
   - (* PExpDel *) destruct zs as [|z zs'].
     + unfold finish in E. destruct kt as [r0|ret [|]|]; injection E as <-; mtx_leaf.
     + unfold with_item in E. destruct (nth_error (s_items s) z) as [it|] eqn:Hn; [destruct (i_live it)|]; try (injection E as <-; mtx_leaf).
-      injection E as <-. eapply mtx_rel_upd; [eassumption | simpl; apply delete_item_items | auto].
+      injection E as <-. eapply mtx_rel_upd; [eassumption | cbn [r_st]; rewrite set_pc_items; apply delete_item_items | auto].
 Qed.
